@@ -104,6 +104,31 @@ def gen(rng, tier):
         src = M([(k, shape()) for k in ks])
         yield {"k": "norm", "from": src, "opts": [opt("PathSep", ".")], "repeat": rep, "_tag": "order/random-overlap",
                "_nt": True, "_sig": "rov|%s|%s" % (",".join(sorted(ks)), ",".join(sorted(json.dumps(v)[:12] for _, v in src["m"])))}
+    # names that run through a setting which is a reference (with variable expansion on): a reference is not a container, the
+    # second definition is a duplicate in every order - never a write into the referenced object
+    rrng = rng.fork("through-reference")
+    for _ in range(n // 8):
+        k, t = rrng.pick(["a", "c"]), rrng.pick(["b", "tgt"])
+        tail = rrng.pick(["y", "x", "0", "y.z"])
+        entries = [(k, S(rrng.pick(["${%s}", "${%s}", "p-${%s}"]) % t)), (t, rrng.pick([M([("x", U(1))]), A([U(1), U(2)]), U(5)])),
+                   (k + "." + tail, rrng.pick([U(2), M([("q", U(3))]), None]))]
+        if rrng.chance(0.3):
+            entries.append((rrng.pick(["m", "l"]), rand_tree(rrng, 1)))
+        yield {"k": "norm", "from": M(rrng.shuffle(entries)), "opts": [opt("PathSep", "."), opt("VarExp")], "repeat": rep,
+               "_tag": "order/through-reference", "_nt": True, "_sig": "thruref|%s|%s|%d" % (tail, json.dumps(entries[1][1])[:10], len(entries))}
+    # one config holding a reference, copied into the config that is read AND embedded in the Env it is read with: the two copies
+    # resolve against different roots and must not share what one of them evaluated to
+    srng = rng.fork("shared-base")
+    for _ in range(n // 12):
+        vo = [opt("VarExp")]
+        x, v, w, q = srng.pick(["x", "port"]), srng.pick(["v", "addr"]), srng.pick(["w", "other"]), srng.pick(["q", "base"])
+        tmpl = srng.pick(["${%s}", "a-${%s}", "${%s}${%s}"])
+        base = {"shared": "B", "c": {"v": M([(v, S(tmpl.replace("%s", x))), ("lit", S("k"))]), "opts": vo}}
+        b2 = M(srng.shuffle([(x, U(1)), (w, S("${%s.%s}" % (q, v)))] + ([("u", S("${%s}" % v))] if srng.chance(0.5) else [])))
+        env = {"o": "Env", "v": M([(q, base), (x, U(2))]), "opts": []}
+        yield {"k": "eval", "from": base, "opts": vo, "merges": [{"b": b2, "opts": vo + [opt("PathSep", ".")]}],
+               "ropts": [opt("PathSep", "."), opt("VarExp"), env], "reads": [{"r": "view"}], "expect": [None], "repeat": 24 if tier == "quick" else 48,
+               "_tag": "order/shared-base", "_nt": True, "_sig": "sharedbase|%s|%d" % (tmpl, len(b2["m"]))}
     # references: one Unpack of a whole config whose settings reference each other must not depend on which setting
     # the runtime visits first (mutually defaulting settings are the open known finding D17 and are left out)
     from . import c08
